@@ -48,3 +48,13 @@ Qed.
 
 Lemma lock_run_inv ops : forall s, lock_inv s -> lock_inv (fold_left lock_step ops s).
 Proof. induction ops as [|o ops IH]; intros s H; cbn; [exact H|]. apply IH, lock_step_inv, H. Qed.
+
+(* "a directory whose version marker is absent ... is refused without being modified" does not hold of create_or_recover:
+   an absent marker sends the open down the create_new path, which has file-system effects before it fails on the
+   existing journal (known finding E18: the visible one is a fresh `lock` file when none existed) *)
+Lemma absent_marker_refusal_has_effects :
+  exists d, ds_marker d = None /\ snd (open_db d) = IoError /\ In FsCreateLockFile (fst (open_db d)).
+Proof.
+  exists {| ds_marker := None; ds_lock_held := false; ds_has_journal0 := true |}.
+  cbn. repeat split. right. left. reflexivity.
+Qed.
